@@ -29,7 +29,16 @@ def main():
     try:
         mod = importlib.import_module("harness." + MODULES[a.prop])
         if a.replay:
-            return mod.replay(a.prop, a.replay) if hasattr(mod, "replay") else 2
+            if hasattr(mod, "replay"):
+                return mod.replay(a.prop, a.replay)
+            # every random choice derives from (property, seed): re-running the tier and seed recorded in the replay's
+            # file name (<prop>-<tier>-<seed>.json) reproduces the reported violation deterministically
+            import re
+            m = re.search(r"-(quick|thorough)-(\d+)\.json$", a.replay)
+            if not m:
+                print("cannot parse tier and seed from the replay file name")
+                return 2
+            return mod.main(a.prop, m.group(1), int(m.group(2)))
         return mod.main(a.prop, a.tier, a.seed)
     except Exception:
         traceback.print_exc()
